@@ -14,6 +14,9 @@ LEVEL_TEXT = ("Theorems in Coq: GenerateShards partitions [0,2^32) with consecut
               "or as a partition of the hash space. Client: after an update that is a partition the client's map is exactly that "
               "partition (stale shards fall to the overlap rule), and along every history the client routes each hash code to the "
               "one shard the published list - which servers forward unchanged - names. "
+              "Server-side assignment dispatcher, for every interleaving of client registrations, coordinator pushes, Send completions / "
+              "failures and disconnects: a client that waits for updates is registered and its last update is the current assignment of "
+              "its namespace (c18_dispatcher_last_update_is_current). "
               "Refuted and kept as known finding O-18(b): a namespace re-added while its old shards are still Deleting is published "
               "with zero shards (c18_readded_namespace_refuted; c18_configured_namespaces_partitioned_partial states what holds). "
               "O-18(a) (namespace stored with a hole when the ensemble selection fails) was confirmed and is fixed in the tree. "
@@ -32,7 +35,12 @@ LEVEL_NOTE = ("Partial: proof about a hand-written model, tied to the code by di
               "shard controllers run, so ensembles / status / term / leader are left out). ConfigChanged itself is not driven "
               "(it needs live node and shard controllers); the harness composes the same calls it makes: ApplyClusterChanges, "
               "StatusResource.Update / DeleteShardMetadata / UpdateShardMetadata on the real resource, computeNewAssignments on a bare "
-              "coordinator. Outside the proved domain, configuration is never validated: shard count 0 and an empty server list "
+              "coordinator. The dispatcher model's atomic actions are the critical sections of the dispatcher mutex and the "
+              "completions of a client stream's Send; the harness owns the fake client streams' Send as a gate and the coordinator "
+              "stream's Recv, and waits (goroutine dump) until a released client sits in the dispatcher's select before the next "
+              "action, so that the real code runs exactly the scheduled interleaving; the window between a Send returning and the "
+              "select (in which the real dispatcher cuts the client off instead of forwarding) is not scheduled. "
+              "Outside the proved domain, configuration is never validated: shard count 0 and an empty server list "
               "with a succeeding supplier make ApplyClusterChanges panic (division by zero, modelled as Panic, nothing stored); "
               "counts > 65536 wrap the uint32 bounds; ShardIdGenerator wraps after 2^63 requested shards; duplicate namespace names "
               "in one config hand shardsToAdd ids that the status does not hold. Modelled restriction: a shard controller's "
@@ -51,7 +59,10 @@ RULE = ("gen: shard counts from {0..300, 2^k, 2^k±1, 65535..65537, random}; non
         "set incl. 0) with scripted supplier (fail / round-robin / explicit), deletion completions, metadata writes; "
         "non-trivial = more than one step, distinct by content; coord: histories of config changes, deletion completions and "
         "restarts of the real coordinator (incl. restarts with every namespace removed and fully deleted), generated op by "
-        "op against the running implementation, distinct by content")
+        "op against the running implementation, distinct by content; disp: schedules of the assignment dispatcher "
+        "(registrations of up to 6 clients of 2 namespaces incl. before the first push and for unknown namespaces, pushes that "
+        "remove / re-create namespaces with 1..4 shards and fresh ids while first and later Sends are parked, Send completions "
+        "and failures, disconnects), distinct by content")
 LEGS = [
     {"name": "shard", "harness": "shard", "model": "shard", "n_quick": 120, "n_thorough": 4000,
      "corpus": "corpus/shard", "timeout": 600, "timeout_thorough": 3000},
